@@ -307,7 +307,7 @@ func c06P5(l *core.Ledger, r *rt) {
 	if confSite != nil {
 		sx.AllInstrs(fn, func(_ sx.Node, in ssa.Instruction) {
 			if d, ok := in.(*ssa.Defer); ok {
-				if mc, ok := d.Call.Value.(*ssa.MakeClosure); ok && mc.Fn == confSite.fn {
+				if d.Call.StaticCallee() == confSite.fn {
 					conf = d
 				}
 			}
@@ -325,17 +325,12 @@ func c06P5(l *core.Ledger, r *rt) {
 		})
 		// the id it confirms is the request's own
 		okID := confSite.msgID != nil && sx.All(sx.Origins(confSite.msgID), isReqMsgID(sx.IsParam(fn.Params[1])))
-		// guarded only by waitForSend
-		nIf := 0
-		sx.AllInstrs(confSite.fn, func(_ sx.Node, in ssa.Instruction) {
-			if _, ok := in.(*ssa.If); ok {
-				nIf++
-			}
-		})
-		l.Check(first && okID && nIf == 1, "C06-P5", key+"/confirmation", conf.Pos(), "deferred before every return; confirms the request's own id; guarded only by waitForSend",
-			fmt.Sprintf("send confirmation: registered before any return: %v; under the request's own id: %v; guarded by waitForSend only: %v", first, okID, nIf == 1))
+		// runs exactly for one-way calls that wait for their send
+		exact := confirmationExact(confSite.fn, confSite.at)
+		l.Check(first && okID && exact, "C06-P5", key+"/confirmation", conf.Pos(), "deferred before every return; confirms the request's own id; runs exactly when callType != nil && !noSendWaiting",
+			fmt.Sprintf("send confirmation: registered before any return: %v; under the request's own id: %v; delivered exactly when the request is a one-way call that waits for its send: %v (otherwise two-way calls are confirmed with an empty reply, or waiting one-way calls never return)", first, okID, exact))
 	}
-	if wf := r.mustFn("C06-P5", "request.waitForSend"); wf != nil {
+	if wf := r.fn("request.waitForSend"); wf != nil {
 		// evaluate the body as a boolean function of (callType != nil, noSendWaiting)
 		ok := true
 		for _, ct := range []bool{false, true} {
@@ -377,75 +372,123 @@ func c06P5(l *core.Ledger, r *rt) {
 // evalWaitForSend interprets the (loop-free) body of waitForSend under an
 // assignment of its two atoms.
 func evalWaitForSend(fn *ssa.Function, callTypeSet, noSendWaiting bool) (bool, bool) {
-	atom := func(v ssa.Value) (bool, bool) {
-		switch x := v.(type) {
-		case *ssa.Const:
-			if x.Value != nil && x.Value.Kind() == constant.Bool {
-				return constant.BoolVal(x.Value), true
-			}
-		case *ssa.BinOp:
-			c, isC := x.Y.(*ssa.Const)
-			if isC && c.IsNil() && sx.All(sx.Origins(x.X), func(o sx.Origin) bool { return o.Kind == sx.KField && o.Field != nil && o.Field.Name() == "callType" }) {
-				if x.Op == token.NEQ {
-					return callTypeSet, true
-				}
-				if x.Op == token.EQL {
-					return !callTypeSet, true
-				}
+	w := &boolWalker{ct: callTypeSet, nsw: noSendWaiting}
+	_, ret, ok := w.run(fn, nil, 0)
+	return ret, ok
+}
+
+// confirmationReached decides, for one valuation of (callType != nil,
+// noSendWaiting), whether the instruction `target` of the loop-free function
+// fn is executed. Conditions may be calls of loop-free boolean helpers.
+func confirmationReached(fn *ssa.Function, target ssa.Instruction, callTypeSet, noSendWaiting bool) (bool, bool) {
+	w := &boolWalker{ct: callTypeSet, nsw: noSendWaiting}
+	reached, _, ok := w.run(fn, target, 0)
+	return reached, ok
+}
+
+// confirmationExact: target runs exactly when the request is a one-way call
+// that waits for its send.
+func confirmationExact(fn *ssa.Function, target ssa.Instruction) bool {
+	for _, ct := range []bool{false, true} {
+		for _, nsw := range []bool{false, true} {
+			got, decided := confirmationReached(fn, target, ct, nsw)
+			if !decided || got != (ct && !nsw) {
+				return false
 			}
 		}
-		if sx.All(sx.Origins(v), func(o sx.Origin) bool {
-			return o.Kind == sx.KField && o.Field != nil && o.Field.Name() == "noSendWaiting"
-		}) {
-			return noSendWaiting, true
-		}
+	}
+	return true
+}
+
+type boolWalker struct{ ct, nsw bool }
+
+func (w *boolWalker) value(v ssa.Value, from map[*ssa.BasicBlock]*ssa.BasicBlock, depth int) (bool, bool) {
+	if depth > 12 {
 		return false, false
 	}
-	var eval func(v ssa.Value, from *ssa.BasicBlock, depth int) (bool, bool)
-	eval = func(v ssa.Value, from *ssa.BasicBlock, depth int) (bool, bool) {
-		if depth > 10 {
-			return false, false
+	switch x := v.(type) {
+	case *ssa.Const:
+		if x.Value != nil && x.Value.Kind() == constant.Bool {
+			return constant.BoolVal(x.Value), true
 		}
-		if u, ok := v.(*ssa.UnOp); ok && u.Op == token.NOT {
-			b, ok := eval(u.X, from, depth+1)
+	case *ssa.UnOp:
+		if x.Op == token.NOT {
+			b, ok := w.value(x.X, from, depth+1)
 			return !b, ok
 		}
-		return atom(v)
-	}
-	// walk the CFG
-	b := fn.Blocks[0]
-	var prev *ssa.BasicBlock
-	for steps := 0; steps < 20; steps++ {
-		last := b.Instrs[len(b.Instrs)-1]
-		switch x := last.(type) {
-		case *ssa.If:
-			c, ok := eval(x.Cond, prev, 0)
-			if !ok {
-				return false, false
+	case *ssa.Phi:
+		for i, p := range x.Block().Preds {
+			if p == from[x.Block()] {
+				return w.value(x.Edges[i], from, depth+1)
 			}
-			prev = b
-			if c {
-				b = b.Succs[0]
-			} else {
-				b = b.Succs[1]
+		}
+		return false, false
+	case *ssa.BinOp:
+		c, isC := x.Y.(*ssa.Const)
+		if isC && c.IsNil() && sx.All(sx.Origins(x.X), func(o sx.Origin) bool { return o.Kind == sx.KField && o.Field != nil && o.Field.Name() == "callType" }) {
+			if x.Op == token.NEQ {
+				return w.ct, true
 			}
-		case *ssa.Jump:
-			prev = b
-			b = b.Succs[0]
-		case *ssa.Return:
-			v := x.Results[0]
-			if ph, ok := v.(*ssa.Phi); ok {
-				for i, p := range ph.Block().Preds {
-					if p == prev {
-						return eval(ph.Edges[i], prev, 0)
-					}
-				}
-				return false, false
+			if x.Op == token.EQL {
+				return !w.ct, true
 			}
-			return eval(v, prev, 0)
-		default:
-			return false, false
+		}
+	case *ssa.Call:
+		callee := x.Call.StaticCallee()
+		if callee != nil && inRepo(callee) && len(callee.Blocks) > 0 && callee.Signature.Results().Len() == 1 {
+			_, ret, ok := w.run(callee, nil, depth+1)
+			return ret, ok
 		}
 	}
+	if sx.All(sx.Origins(v), func(o sx.Origin) bool {
+		return o.Kind == sx.KField && o.Field != nil && o.Field.Name() == "noSendWaiting"
+	}) {
+		return w.nsw, true
+	}
 	return false, false
+}
+
+// run walks the single path the valuation selects through fn.
+func (w *boolWalker) run(fn *ssa.Function, target ssa.Instruction, depth int) (reached, ret, ok bool) {
+	if len(fn.Blocks) == 0 || depth > 4 {
+		return false, false, false
+	}
+	from := map[*ssa.BasicBlock]*ssa.BasicBlock{}
+	b := fn.Blocks[0]
+	for steps := 0; steps < 40; steps++ {
+		for _, in := range b.Instrs {
+			if target != nil && in == target {
+				return true, false, true
+			}
+		}
+		var next *ssa.BasicBlock
+		switch x := b.Instrs[len(b.Instrs)-1].(type) {
+		case *ssa.If:
+			c, ok := w.value(x.Cond, from, depth)
+			if !ok {
+				return false, false, false
+			}
+			if c {
+				next = b.Succs[0]
+			} else {
+				next = b.Succs[1]
+			}
+		case *ssa.Jump:
+			next = b.Succs[0]
+		case *ssa.Return:
+			if len(x.Results) == 1 {
+				v, ok := w.value(x.Results[0], from, depth)
+				return false, v, ok
+			}
+			return false, false, true
+		default:
+			return false, false, false
+		}
+		if _, seen := from[next]; seen {
+			return false, false, false // a loop: not a guard this walker understands
+		}
+		from[next] = b
+		b = next
+	}
+	return false, false, false
 }
